@@ -25,7 +25,8 @@ inductive Shape (s : St) (t : Nat) (f0 : Frame) (rest : List Frame) (e : Ev) (s'
   | pop (h : s'.thr = upd s.thr t rest) (hk : f0.kind ≠ .base) (hb : ∀ id, e ≠ .begin_ id)
   | top (f0' : Frame) (h : s'.thr = upd s.thr t (f0' :: rest)) (hb : ∀ id, e ≠ .begin_ id)
       (hset : f0'.set = f0.set)
-      (hfq : f0'.fq = f0.fq ∨ (e = .inline0 ∧ (s.nThreads = 0 ∨ s.resizing = true)))
+      (hfq : f0'.fq = f0.fq ∨
+        (e = .inline0 ∧ (s.nThreads = 0 ∨ s.resizing = true ∨ f0.zeroPath = true)))
       (hO : ∀ S, Ob f0' S → Ob f0 S ∨ Fresh s e S)
   | begin (F f0' : Frame) (id : Nat) (he : e = .begin_ id)
       (h : s'.thr = upd s.thr t (F :: f0' :: rest)) (hF : F.pend = .none ∧ F.guardOK = false)
